@@ -235,3 +235,12 @@ class With:
 
     def __init__(self, goal, facts):
         self.goal, self.facts = goal, list(facts)
+
+
+class Given:
+    """goal, stated relative to definitional `axioms` (a Hilbert choice function introduced for this very formula, instances of the recursive
+    definition of cnt): the axioms are ASSUMED wherever the clause is assumed or proved.  Only conservative extensions may be passed here;
+    every use is listed under REG.assume."""
+
+    def __init__(self, goal, axioms):
+        self.goal, self.axioms = goal, list(axioms)
